@@ -4,7 +4,7 @@
 From Coq Require Import ZArith Reals List Bool.
 From Rubato.Model Require Import Num Reals Base Validate Async Resamplers.
 From Rubato.Gen Require Import FastGen SincGen.
-From Rubato.Proofs Require Import MalformedP FastInR FastOutR FastCtorR GettersR.
+From Rubato.Proofs Require Import MalformedP FastInR FastOutR FastCtorR GettersR SincInR.
 Local Open Scope R_scope.
 
 (** FastFixedIn: a valid call consumes exactly input_frames_next() (= chunk) frames, writes
@@ -28,6 +28,17 @@ Theorem C04_fast_out_counts_R : forall d blen (s : @astate CR SR (@FastFixedOut 
 Proof.
   intros d blen s wi wo m W P. destruct (fo_call_const_R d blen s wi wo m W P) as (s' & outs & E & _).
   exists s', outs. exact E.
+Qed.
+
+(** SincFixedIn: consumes exactly chunk_size = input_frames_next(), writes n <= output_frames_next(). *)
+Theorem C04_sinc_in_counts_R : forall env (s : @astate CR SR (@SincFixedIn CR)) wi wo m,
+  si_wf env s -> a_precheck (@si_arch CR SR env) s wi wo m = Ok tt ->
+  exists s' n outs,
+    pib (@si_arch CR SR env) s wi wo m = Ok (s', (@si_input_frames_next CR (as_ctl s), n), outs) /\
+    (0 <= n <= @si_calc_needed_len CR (as_ctl s))%Z.
+Proof.
+  intros env s wi wo m W P. destruct (si_call_const_R env s wi wo m W P) as (s' & n & outs & E & Hn & _).
+  exists s', n, outs. split; [exact E | exact Hn].
 Qed.
 
 (** next <= max while the ratios stay below original*max (what the setters enforce) *)
@@ -57,3 +68,4 @@ Print Assumptions C04_fast_in_counts_R.
 Print Assumptions C04_fast_out_counts_R.
 Print Assumptions C04_fast_in_next_le_max_R.
 Print Assumptions C04_fast_out_next_le_max_R.
+Print Assumptions C04_sinc_in_counts_R.
